@@ -18,6 +18,7 @@ import random
 import numpy as np
 
 import refine_common as rc
+import refine_state as rs
 import vlib
 
 TOL = 1e-4
@@ -58,7 +59,11 @@ RULE = ("one evaluation = one locate_droplets(refine=True) call on a rendered im
         "numpy scalar / 0-d array / int, tolerance and least_squares_params in refine_args -- the caller's dicts compared afterwards --, "
         "minimal_radius 0 / negative / -inf / half the radius, interface_width start value, modes 2 / 3, num_processes 2, the same "
         "call repeated on the same objects); annular stream: polar / spherical grids with a core of 1, 4, 8, 16 cells removed x "
-        "threshold rule x level option (full product, 96 cases), the candidate's radius error before refinement counted; all non-trivial (the candidate differs from the truth); distinct by the full case")
+        "threshold rule x level option (full product, 96 cases), the candidate's radius error before refinement counted; sequences (input "
+        "dimension 8): sessions of 8 locate_droplets(refine=True) calls on ONE grid object with fields A, B (same shape, levels; other droplet) and "
+        "C (A's droplet, other levels), one refine_args dict -- same call twice, A / B / A alternately, other rule, after a call that raises, with "
+        "two worker processes, fresh equal objects at the end, emulsions kept alive and one modified in place -- every result compared bit for bit "
+        "with the same (serial) call made FIRST in a fresh interpreter; all non-trivial (the candidate differs from the truth); distinct by the full case")
 
 RULES = ["extrema", "mean", "otsu", "numeric"]
 OPTS = ["supplied", "supplied+fitted", "auto+fitted"]
@@ -711,6 +716,11 @@ def check(ctx: vlib.Ctx) -> int:
         with ThreadPoolExecutor(4) as ex:
             list(ex.map(lambda a: vlib.sample_goals(ctx, f"c05_{a[0]}", req, a[1],
                                                     ["residual_adjust", "residual_plain", "diffuse_profile"]), enumerate(shards)))
+    # input dimension 8 (state kept between calls): sessions on shared objects against two fresh reference interpreters
+    rng_s = random.Random(ctx.seed + 4)
+    sessions = [rs.gen_locate_session(rng_s, k) for k in range(ctx.scale(16, 96) if not ctx.broken else ctx.scale(32, 160))]
+    session_tasks = [rs.locate_tasks(s_) for s_ in sessions]
+    ref_procs = rs.start_references(session_tasks)
     # (d) property oracle + measurement
     n_single = ctx.scale(720, 4800) if not ctx.broken else ctx.scale(1080, 6000)
     n_em = ctx.scale(48, 240)
@@ -794,6 +804,8 @@ def check(ctx: vlib.Ctx) -> int:
                 fails.append({"what": f"locate_droplets(refine=True) returned {found}, refining its candidates one by one gives {outs}",
                               "stream": tag, "input": case})
             ctx.count("candidates_per_image", len(cands))
+    for f_ in rs.judge_sessions(ctx, "locate", sessions, session_tasks, ref_procs):
+        fails.append(f_)
     ctx.extra["fits"] = fits
     if ok and lits:
         bad = vlib.run_cases(ctx, "locate_refine", rc.CASE_HEADER, lits, "agree", shard=40)
@@ -820,7 +832,7 @@ def check(ctx: vlib.Ctx) -> int:
         ctx.sample({"worst_case_errors": worst[0][1], "input": json.loads(json.dumps(worst[0][3]))})
     seen: dict = {}
     for f in fails:
-        key = f["what"].split(":")[0][:40]
+        key = f.get("failure") or f["what"].split(":")[0][:40]
         seen[key] = seen.get(key, 0) + 1
         ent = rc.known_entry("C05", "relative error", grid=rc.grid_name(f["input"]["grid"])) if "grid" in f["input"] else None
         if ent is not None:
@@ -846,6 +858,12 @@ def replay(path: str) -> int:
     obj = json.load(open(path))
     print(json.dumps(obj, indent=1)[:3000])
     case = obj.get("input")
+    if isinstance(case, dict) and "rule2" in case:
+        fl = rs.replay_session(case)
+        for x in fl:
+            print("  failure:", x["class"], "--", x["what"][:400])
+        print("property oracle on the current tree:", "fails" if fl else "holds")
+        return 1 if fl else 0
     if isinstance(case, dict) and "rule" in case:
         f, errs, _ = c05_oracle(case)
         print("measured errors (position/cell, radius, width):", errs)
